@@ -588,6 +588,15 @@ func jsonFileCase(cf *lib.CaseFile, r *lib.Rng, dir string, idx int, flat bool) 
 		coq = "C24Parse ([], None, None, None)"
 	}
 	ci := cf.Add(coq, js, nrows > 100 || flat)
+	if !flat && cerr == nil && (nrows <= 12 || r.Chance(1, 4)) {
+		// nested inference: the model's schema against the reported one, and the previewed rows against it
+		k := len(rowItems)
+		if k > 100 {
+			k = 100
+		}
+		cf.Add(fmt.Sprintf("C24JNested (%s, %s)", lib.CoqList(rowItems[:k]), lib.CoqList(fields)), js, true)
+		cf.Count("json_nested_inference")
+	}
 	if flat {
 		cf.Count("json_flat_inference")
 	} else {
@@ -615,6 +624,77 @@ func jsonFileCase(cf *lib.CaseFile, r *lib.Rng, dir string, idx int, flat bool) 
 		}
 		if rerr != nil && nrows <= 100 {
 			cf.Violation(ci, fmt.Sprintf("json source failed on a line that is part of the preview the schema was inferred from: %v", rerr), "")
+		}
+	}
+}
+
+// repeated keys: at top level and inside nested objects, with values of the same or of different kinds
+const dupClass = "json-nested-duplicate-key"
+
+func jsonDupCase(cf *lib.CaseFile, r *lib.Rng, dir string, idx int) {
+	vals := []string{"1", "\"s\"", "true", "null", "[1]", "{\"x\":1}", "[]"}
+	nrows := 1 + r.Intn(4)
+	nested := false
+	lines := make([]string, nrows)
+	for i := range lines {
+		pick := func() string { return vals[r.Intn(len(vals))] }
+		var items []string
+		if r.Chance(2, 3) { // nested object with a repeated key
+			items = append(items, fmt.Sprintf("\"o\":{\"k\":%s,\"j\":%s,\"k\":%s}", pick(), pick(), pick()))
+			nested = true
+		} else {
+			items = append(items, fmt.Sprintf("\"o\":{\"k\":%s}", pick()))
+		}
+		if r.Chance(1, 2) { // the same at top level
+			items = append(items, fmt.Sprintf("\"t\":%s,\"t\":%s", pick(), pick()))
+		}
+		if r.Chance(1, 3) {
+			items = append(items, fmt.Sprintf("\"l\":[{\"k\":%s,\"k\":%s}]", pick(), pick()))
+			nested = true
+		}
+		lines[i] = "{" + strings.Join(items, ",") + "}"
+	}
+	data := strings.Join(lines, "\n") + "\n"
+	path := filepath.Join(dir, fmt.Sprintf("d%d.json", idx))
+	must(os.WriteFile(path, []byte(data), 0o644))
+	defer os.Remove(path)
+	schema, recs, cerr, rerr, p := runSource(jsonds.Creator, path, map[string]string{})
+	var parser fastjson.Parser
+	rowItems := make([]string, len(lines))
+	for i := range lines {
+		v, err := parser.Parse(lines[i])
+		must(err)
+		rowItems[i] = coqJobj(v)
+	}
+	fields := make([]string, len(schema.Fields))
+	names := make([]string, len(schema.Fields))
+	for j, f := range schema.Fields {
+		fields[j] = fmt.Sprintf("(%s, %s)", lib.CoqBytes(f.Name), coqJty(f.Type))
+		names[j] = f.Name + ": " + f.Type.String()
+	}
+	js := map[string]interface{}{"kind": "json-duplicate-keys", "file": data, "schema": names, "records": len(recs), "create_err": fmt.Sprint(cerr), "run_err": fmt.Sprint(rerr)}
+	coq := fmt.Sprintf("C24JNested (%s, %s)", lib.CoqList(rowItems), lib.CoqList(fields))
+	if cerr != nil {
+		coq = "C24Parse ([], None, None, None)"
+	}
+	ci := cf.Add(coq, js, nested)
+	cf.Count("json_duplicate_key_files")
+	class := ""
+	if nested {
+		class = dupClass
+		cf.SetClass(ci, dupClass)
+		cf.Count("json_nested_duplicate_key_files")
+	}
+	switch {
+	case p != nil:
+		cf.Violation(ci, fmt.Sprintf("json source panicked: %v", p), "")
+	case cerr != nil:
+		cf.Violation(ci, "json schema inference failed on a well-formed file: "+cerr.Error(), class)
+	case rerr != nil:
+		cf.Violation(ci, fmt.Sprintf("a row the schema was inferred from is rejected: %v", rerr), class)
+	default:
+		if w := checkRecords(schema.Fields, recs, rerr, len(lines), "full read"); w != "" {
+			cf.Violation(ci, w, class)
 		}
 	}
 }
@@ -684,6 +764,9 @@ func main() {
 		jsonFileCase(cf, rng.Fork(), dir, 100000+i, true)
 	}
 
+	for i, n := 0, f.Cases(30, 300); i < n; i++ {
+		jsonDupCase(cf, rng.Fork(), dir, 200000+i)
+	}
 	// (f) the systematic sweep: column kind x late shape, full / pruned field lists / command line
 	t0 := time.Now()
 	cliCases := csvMatrix(cf, f.Seed, dir, f.Tier)
